@@ -123,19 +123,21 @@ pub fn run(args: &Args, report: &mut Report) {
                    or a use resolved as global (so that scoping decides something)"
         .into();
     let progs = programs(args, report);
-    let mut reqs = Vec::with_capacity(progs.len() * 2);
+    let mut reqs = Vec::with_capacity(progs.len() * 3);
     let encs: Vec<String> = progs.iter().map(|p| ast::encode(p)).collect();
     for e in &encs {
         reqs.push(format!("scope.ref {e}"));
         reqs.push(format!("scope.impl {e}"));
+        reqs.push(format!("scope.findscope {e}"));
     }
     let answers = run_driver(&reqs);
     let mut ws = Ws::new();
     let mut seen: HashSet<&str> = HashSet::new();
     for (i, p) in progs.iter().enumerate() {
         let enc = &encs[i];
-        let spec = &answers[2 * i];
-        let model = &answers[2 * i + 1];
+        let spec = &answers[3 * i];
+        let model = &answers[3 * i + 1];
+        let fscope = &answers[3 * i + 2];
         let r = ast::render(p);
         let input = json!({"program": enc, "lua": r.text});
         let class = ast::class_of(p);
@@ -151,6 +153,13 @@ pub fn run(args: &Args, report: &mut Report) {
             report.count("feature_repeat_empty_body_closure_in_condition");
         }
         count_kinds(p, report);
+        // model-internal tie: at every lookup of the walk the open scopes are the path `find_scope`
+        // takes through the ranged scope tree (scope ranges as `create_scope` receives them)
+        if !fscope.ends_with(" same") {
+            report.mismatch(json!({"input": input, "what": "model: open scopes at a lookup differ from find_scope on the ranged scope tree", "answer": fscope}));
+        } else {
+            report.add("find_scope_lookups_checked", fscope.split(' ').nth(1).and_then(|x| x.parse().ok()).unwrap_or(0));
+        }
         let (spec, model) = match (spec.strip_prefix("ok "), model.strip_prefix("ok ")) {
             (Some(a), Some(b)) => (a.to_string(), b.to_string()),
             _ if spec == "ok" && model == "ok" => (String::new(), String::new()),
